@@ -417,6 +417,9 @@ type maskRobustResult struct {
 
 var maskHangs int32
 
+// maskWatchdog: generous, the machine may be heavily loaded; the check re-runs a hanging input alone to confirm
+const maskWatchdog = 45 * time.Second
+
 // maskWatch runs f(r) with a watchdog: a call that does not return is an observation ("hang"), the stuck goroutine
 // is abandoned (it cannot be killed); after 24 hangs the remaining cases are not run any more.
 func maskWatch(f func(r *maskResult) (*maskRobustResult, error)) (*maskRobustResult, error) {
@@ -436,7 +439,7 @@ func maskWatch(f func(r *maskResult) (*maskRobustResult, error)) (*maskRobustRes
 	select {
 	case x := <-ch:
 		return x.o, x.e
-	case <-time.After(20 * time.Second):
+	case <-time.After(maskWatchdog):
 		atomic.AddInt32(&maskHangs, 1)
 		st, _ := r.cur.Load().(string)
 		return &maskRobustResult{Hang: true, Stage: st}, nil
